@@ -59,6 +59,42 @@ Inductive stepres := Next (c : config) | Final (r : res item) (evs : list gev).
 (* ghost: the text of the whole value stack, bottom first *)
 Definition stack_text (vals : list symval) : str := concat (map full_text (rev vals)).
 
+Definition do_shift (c : config) (n : nat) : stepres :=
+  match c_toks c with
+  | t :: rest => Next (mkCfg (n :: c_states c) (token_value t :: c_vals c) rest (c_dropped c))
+  | [] => Final (Err (EOther 4)) []                (* shift of $end: never *)
+  end.
+
+Definition do_reduce (tb : tables) (c : config) (p : nat) : stepres :=
+  match p, nth_error (tb_prods tb) (pred p) with
+  | S _, Some (lhs, rhs, a) =>
+      let n := length rhs in
+      if Nat.ltb (length (c_vals c)) n then Final (Err (EOther 5)) []
+      else
+        let args := rev (firstn n (c_vals c)) in
+        let states' := skipn n (c_states c) in
+        match run_action a args with
+        | Err e => Final (Err e) []
+        | Ok (v, dropped) =>
+            match tb_goto tb (hd 0 states') lhs with
+            | Some g => Next (mkCfg (g :: states') (v :: skipn n (c_vals c)) (c_toks c)
+                                    (c_dropped c ++ dropped))
+            | None => Final (Err (EOther 6)) []
+            end
+        end
+  | _, _ => Final (Err (EOther 7)) []
+  end.
+
+Definition do_accept (lexerr : option (nat * str)) (c : config) : stepres :=
+  match c_vals c with
+  | VItem i :: below =>
+      (* ghost: whatever is not in the returned tree would be lost (never with PLY's tables:
+         acceptance happens on $end with exactly one value on the stack) *)
+      Final (Ok i) (drops [stack_text below; render (c_toks c);
+                           match lexerr with Some e => snd e | None => [] end])
+  | _ => Final (Err (EOther 8)) []
+  end.
+
 Definition step (tb : tables) (lexerr : option (nat * str)) (c : config) : stepres :=
   let st := hd 0 (c_states c) in
   match c_toks c, lexerr with
@@ -67,39 +103,9 @@ Definition step (tb : tables) (lexerr : option (nat * str)) (c : config) : stepr
       let la := hd_error (c_toks c) in
       let lat := match la with Some t => tk_type t | None => T_EOF end in
       match tb_action tb st lat with
-      | Shift n =>
-          match c_toks c with
-          | t :: rest => Next (mkCfg (n :: c_states c) (token_value t :: c_vals c) rest (c_dropped c))
-          | [] => Final (Err (EOther 4)) []             (* shift of $end: never *)
-          end
-      | Reduce p =>
-          match p, nth_error (tb_prods tb) (pred p) with
-          | S _, Some (lhs, rhs, a) =>
-              let n := length rhs in
-              if Nat.ltb (length (c_vals c)) n then Final (Err (EOther 5)) []
-              else
-                let args := rev (firstn n (c_vals c)) in
-                let states' := skipn n (c_states c) in
-                match run_action a args with
-                | Err e => Final (Err e) []
-                | Ok (v, dropped) =>
-                    match tb_goto tb (hd 0 states') lhs with
-                    | Some g => Next (mkCfg (g :: states') (v :: skipn n (c_vals c)) (c_toks c)
-                                            (c_dropped c ++ dropped))
-                    | None => Final (Err (EOther 6)) []
-                    end
-                end
-          | _, _ => Final (Err (EOther 7)) []
-          end
-      | Accept =>
-          match c_vals c with
-          | VItem i :: below =>
-              (* ghost: whatever is not in the returned tree would be lost (never with PLY's tables:
-                 acceptance happens on $end with exactly one value on the stack) *)
-              Final (Ok i) (drops [stack_text below; render (c_toks c);
-                                   match lexerr with Some e => snd e | None => [] end])
-          | _ => Final (Err (EOther 8)) []
-          end
+      | Shift n => do_shift c n
+      | Reduce p => do_reduce tb c p
+      | Accept => do_accept lexerr c
       | ActErr => Final (Err (syntax_error la)) []
       end
   end.
